@@ -1,0 +1,34 @@
+//go:build verif
+
+// Contracts for the bisquitt-sub command-line tool, read by /verif/govc (comment-only file).
+// Same scheme as cmd/bisquitt: the action closure is executed symbolically up to the point where the
+// client configuration has been decided (`stopat`: the c.String call that reads the password, which
+// follows the user / DTLS check); set-up calls are abstracted (`opaquecalls`), flags are functions of the
+// cli context and the flag name (A-CLI); that the checked values are the ones the client is created with
+// is decided on the SSA (`flows`).
+
+package main
+
+//@ func handleAction$1
+//@   opaquecalls
+//@   stopat String.3
+//@   requires [C30,C31] ctx: c != nil
+//@   assigns *
+// ---- C31: no credentials over plain UDP unless --insecure; no user configured -> none handed to the library ----
+//@   at String.3 before assert [C31] never_plaintext_credentials: !(flagIsSet(c, UserFlag) && !flagBool(c, DtlsFlag) && !flagBool(c, InsecureFlag))
+//@   at String.3 before assert [C31] user_as_configured: user == ite(flagIsSet(c, UserFlag), flagString(c, UserFlag), "") && (flagIsSet(c, UserFlag) ==> len(user) != 0)
+//@   flows [C31] ClientConfig.User <- user into NewClient
+// ---- C30: the mapping handed to the client library is the file's, overridden entry by entry by the options ----
+//@   at ReadPredefinedTopicsFile.0 before assert [C30] reads_the_file_flag: flagIsSet(c, PredefinedTopicsFileFlag) && arg(0) == flagString(c, PredefinedTopicsFileFlag)
+//@   at ReadPredefinedTopicsFile.0 after let fileT = retn(0)
+//@   at ParsePredefinedTopicOptions.0 before assert [C30] parses_the_option_flag: flagIsSet(c, PredefinedTopicFlag) && sameSlice(arg(0), flagStrings(c, PredefinedTopicFlag))
+//@   at ParsePredefinedTopicOptions.0 after let optT = retn(0)
+//@   at Merge.0 before let base = arg(0)
+//@   at Merge.0 before assert [C30] options_override_the_file: arg(1) == optT && (bound(fileT) ==> arg(0) == fileT) &&
+//@      (!bound(fileT) ==> (forall cl string, id uint16 :: !has(arg(0), cl, id)))
+//@   at String.3 before assert [C30] file_read_when_given: flagIsSet(c, PredefinedTopicsFileFlag) == bound(fileT)
+//@   at String.3 before assert [C30] options_merged_when_given: flagIsSet(c, PredefinedTopicFlag) == bound(base)
+//@   at String.3 before assert [C30] merged_mapping_used: bound(base) ==> predefinedTopics == base
+//@   at String.3 before assert [C30] file_mapping_used: !bound(base) && bound(fileT) ==> predefinedTopics == fileT
+//@   at String.3 before assert [C30] no_mapping_is_empty: !bound(base) && !bound(fileT) ==> (forall cl string, id uint16 :: !has(predefinedTopics, cl, id))
+//@   flows [C30] ClientConfig.PredefinedTopics <- predefinedTopics into NewClient
